@@ -77,6 +77,29 @@ EXPRS = [
     ("expr", "src/lib.rs", "alloc_layout_slow", ("let", "bypass_min_chunk_size_for_small_limits", 1), "slow_bypass"),
     ("expr", "src/lib.rs", "alloc_layout_slow", ("if", 2), "slow_try_candidate_cond"),   # (if #1 is the guard inside matches!)
 ]
+EXPRS += [
+    ("expr", "src/collections/vec.rs", "insert", ("assert", 1), "vec_insert_index_ok"),
+    ("expr", "src/collections/vec.rs", "insert", ("if", 1), "vec_insert_must_grow"),
+    ("expr", "src/collections/vec.rs", "insert", ("arg", "copy", 1, 0), "vec_insert_copy_src"),
+    ("expr", "src/collections/vec.rs", "insert", ("arg", "copy", 1, 1), "vec_insert_copy_dst"),
+    ("expr", "src/collections/vec.rs", "insert", ("arg", "copy", 1, 2), "vec_insert_copy_len"),
+    ("expr", "src/collections/vec.rs", "insert", ("arg", "set_len", 1, 0), "vec_insert_new_len"),
+    ("expr", "src/collections/vec.rs", "remove", ("assert", 1), "vec_remove_index_ok"),
+    ("expr", "src/collections/vec.rs", "remove", ("arg", "copy", 1, 0), "vec_remove_copy_src"),
+    ("expr", "src/collections/vec.rs", "remove", ("arg", "copy", 1, 1), "vec_remove_copy_dst"),
+    ("expr", "src/collections/vec.rs", "remove", ("arg", "copy", 1, 2), "vec_remove_copy_len"),
+    ("expr", "src/collections/vec.rs", "remove", ("arg", "set_len", 1, 0), "vec_remove_new_len"),
+    ("expr", "src/collections/vec.rs", "split_off", ("assert", 1), "vec_split_off_index_ok"),
+    ("expr", "src/collections/vec.rs", "split_off", ("let", "other_len", 1), "vec_split_off_other_len"),
+    ("expr", "src/collections/vec.rs", "split_off", ("arg", "copy_nonoverlapping", 1, 0), "vec_split_off_copy_src"),
+    ("expr", "src/collections/vec.rs", "drain", ("let", "start", 1), "vec_drain_start"),
+    ("expr", "src/collections/vec.rs", "drain", ("let", "end", 1), "vec_drain_end"),
+    ("expr", "src/collections/vec.rs", "drain", ("assert", 1), "vec_drain_ordered"),
+    ("expr", "src/collections/vec.rs", "drain", ("assert", 2), "vec_drain_in_range"),
+    ("expr", "src/collections/vec.rs", "drain", ("field", "tail_len", 1), "vec_drain_tail_len"),
+    ("expr", "src/collections/string.rs", "drain", ("let", "start", 1), "string_drain_start"),
+    ("expr", "src/collections/string.rs", "drain", ("let", "end", 1), "string_drain_end"),
+]
 # statements around those expressions that have no value to translate: their text, whitespace-free,
 # must occur in the function (a rewrite of them fails the obligation src_frames_ok)
 FRAMES = [
@@ -411,7 +434,11 @@ class Parser:
                         raise Unsupported("turbofish")
                 if self.peek() == "(":
                     a = self.args()
-                    if len(a) == 0:
+                    if len(a) == 0 and e == '(EVar "self")' and m == "as_ptr":
+                        # the buffer pointer of the collection itself (as_ptr on anything else is the identity
+                        # on addresses): the same field as as_mut_ptr
+                        e = "(EMeth0 %s %s)" % (e, q("as_mut_ptr"))
+                    elif len(a) == 0:
                         e = "(EMeth0 %s %s)" % (e, q(m))
                     elif len(a) == 1 and e == '(EVar "self")' and m in SELF_FNS:
                         e = "(ECall1 %s %s)" % (q(m), a[0])
@@ -519,6 +546,30 @@ class Parser:
                     self.eat(")")
                     self.eat("=>")
                     some_br = self.block() if self.peek() == "{" else self.expr()
+                elif pat in ("Included", "Excluded", "Unbounded"):
+                    # match over core::ops::Bound; a bound is the record {tag: 0|1|2, n}
+                    x = "_"
+                    if pat != "Unbounded":
+                        self.eat("(")
+                        if self.peek() == "&":
+                            self.eat()
+                        x = self.eat()
+                        self.eat(")")
+                    self.eat("=>")
+                    br = self.block() if self.peek() == "{" else self.expr()
+                    bound_br = locals().setdefault("bound_br", {})
+                    bound_br[pat] = (x, br)
+                    if self.peek() == ",":
+                        self.eat()
+                    if self.peek() == "}" and set(bound_br) == {"Included", "Excluded", "Unbounded"}:
+                        self.eat("}")
+                        xi, bi = bound_br["Included"]
+                        xe, be = bound_br["Excluded"]
+                        _, bu = bound_br["Unbounded"]
+                        tag = "(EMeth0 %s %s)" % (s, q("tag"))
+                        return "(EIf (EBin BEq %s (ELit 0)) (ELet %s (EMeth0 %s %s) %s) (EIf (EBin BEq %s (ELit 1)) (ELet %s (EMeth0 %s %s) %s) %s))" % (
+                            tag, q(xi), s, q("n"), bi, tag, q(xe), s, q("n"), be, bu)
+                    continue
                 elif pat in ("None", "Err", "_"):
                     if pat == "Err":
                         self.skip_balanced("(", ")")
@@ -659,7 +710,7 @@ def param_names(params):
         parts.append(cur)
     for p in parts:
         p = p.strip()
-        if re.fullmatch(r"&?\s*(mut\s+)?self", p):
+        if re.fullmatch(r"&?\s*('\w+\s+)?(mut\s+)?self", p):
             continue
         m = re.match(r"(mut\s+)?(\w+)\s*:", p)
         if not m:
@@ -743,6 +794,43 @@ def extract_expr(toks, locator):
         if p.peek() != "{":
             raise Unsupported("condition not followed by a block")
         pos, path, used = tgt["at"], tgt["path"], set(vals[tgt["start"]:p.i])
+    elif locator[0] == "assert":
+        # condition of the k-th assert!(cond [, message..])
+        hits = [i for i in range(len(vals) - 1) if vals[i] in ("assert!",) and vals[i + 1] == "("]
+        if len(hits) < locator[1]:
+            raise Unsupported("assert! #%d not found" % locator[1])
+        at = hits[locator[1] - 1]
+        p = Parser(toks)
+        p.i = at + 2
+        term = p.expr()
+        if p.peek() not in (",", ")"):
+            raise Unsupported("assert condition not fully parsed")
+        stack = []
+        for i in range(at):
+            if vals[i] == "{":
+                stack.append(i)
+            elif vals[i] == "}":
+                stack.pop()
+        pos, path, used = at, tuple(stack), set(vals[at + 2:p.i])
+    elif locator[0] == "field":
+        # value of the k-th `NAME: expr` field initialiser of a struct literal
+        _, field, k = locator
+        hits = [i for i in range(1, len(vals) - 1) if vals[i] == field and vals[i + 1] == ":" and vals[i - 1] in ("{", ",")]
+        if len(hits) < k:
+            raise Unsupported("field initialiser %s #%d not found" % (field, k))
+        at = hits[k - 1]
+        p = Parser(toks)
+        p.i = at + 2
+        term = p.expr()
+        if p.peek() not in (",", "}"):
+            raise Unsupported("field initialiser not fully parsed")
+        stack = []
+        for i in range(at):
+            if vals[i] == "{":
+                stack.append(i)
+            elif vals[i] == "}":
+                stack.pop()
+        pos, path, used = at, tuple(stack[:-1]), set(vals[at + 2:p.i])
     elif locator[0] == "assign":
         # right-hand side of the k-th `<place>.FIELD = expr;`
         _, field, k = locator
